@@ -348,6 +348,7 @@ func (e *Explorer) choose(n int) int {
 		e.Pin.cpos++
 		return d
 	}
+	e.Decisions++ // nondeterministic choices (harness Choose, fault injection, thread scheduling) are branch points of the path tree too
 	if e.pos < len(e.prefix) {
 		d := e.prefix[e.pos]
 		e.pos++
